@@ -12,6 +12,7 @@ import NanoVerif.Model.Csv
 import NanoVerif.Model.Valid
 import NanoVerif.Model.PaintedLayers
 import NanoVerif.Model.Ninja
+import NanoVerif.Model.Regroup
 import NanoVerif.Model.Inputs
 import NanoVerif.Model.Sem
 import NanoVerif.Model.Sched
@@ -227,6 +228,10 @@ def dispatch (op : String) (j : Json) : Except String Json := do
         | _ => .error "rule")
       let inputs ← (← getArr (← field j "inputs")).mapM getNats
       return obj [("out", Json.arr (inputs.map (fun i => Json.arr ((shapeLig rules (i.length + 1) i).map (fun g => jI (Int.ofNat g))).toArray)).toArray)]
+  | "regroup" =>
+      let old ← getStrs (← field j "old")
+      let groups ← (← getArr (← field j "groups")).mapM getStrs
+      return obj [("order", jStrs (regroup old groups))]
   | "accept-inputs" =>
       let ins ← (← getArr (← field j "inputs")).mapM (fun ij => do
         pure (⟨← getStr (← field ij "name"), ← getNats (← field ij "cps")⟩ : GlyphInput))
